@@ -88,7 +88,6 @@ Qed.
 (** ** slots *)
 Section Slots.
   Variable S : nat.                                   (* element size in bytes *)
-  Hypothesis S_pos : (0 < S)%nat.
   Notation ok := (fun e : elem => length e = S).
 
   (** exchange slots j and j+1 *)
